@@ -68,7 +68,7 @@ def run(ctx):
             steps.append({"coeffs": cspec, "origin": None if o is None else [o.numerator, o.denominator],
                           "order": rnd.choice(["co", "oc", "c", "o", "c", "o"]), "via": rnd.randint(0, 1), "region": region, "window": window})
         cases.append({"dtype": dt, "shape": shape, "raw": raw, "steps": steps})
-    impl = ctx.run_impl("impl_calib.py", {"cases": cases}, timeout=3000)
+    impl = ctx.run_impl_cases("impl_calib.py", cases, jobs=8, timeout=3000)
     import numpy as np
     terms, inputs, failures = [], [], []
     for c, r in zip(cases, impl):
